@@ -35,7 +35,9 @@ func parallel(n int, fn func(i int)) {
 		go func() {
 			defer wg.Done()
 			for i := range ch {
-				fn(i)
+				if !evid.IsSaturated() {
+					fn(i)
+				}
 			}
 		}()
 	}
